@@ -174,6 +174,16 @@ M = [
     ('hex-guard-off-by-one', 'C05', I, "len(defval) > 3 and", "len(defval) >= 3 and"),
     ('compliance-groups-dedup', 'C06', I, "        return compliances\n", "        return sorted(set(compliances))\n"),
     ('toDel-inline-remove', 'C16', S, "                        toDel.append((module, symbol))", "                        imports[module].remove(symbol)"),
+    # ---- rules added after the systematic mutation run (selftest/automut.py)
+    ('objectidentity-status-negated', 'C03', I, "        outDict['class'] = 'objectidentity'\n\n        if status:", "        outDict['class'] = 'objectidentity'\n\n        if not status:"),
+    ('objectidentity-status-dropped', 'C03', I, "        outDict['class'] = 'objectidentity'\n\n        if status:\n            outDict['status'] = status\n", "        outDict['class'] = 'objectidentity'\n"),
+    ('objectidentity-description-or', 'C15', I, "        outDict['class'] = 'objectidentity'\n\n        if status:\n            outDict['status'] = status\n\n        if self.genRules['text'] and description:", "        outDict['class'] = 'objectidentity'\n\n        if status:\n            outDict['status'] = status\n\n        if self.genRules['text'] or description:"),
+    ('codegen-failure-not-in-failed-map', 'C07', C, "                processed[mibname] = statusFailed.setOptions(error=exc)\n\n                failedMibs[mibname] = exc\n                del parsedMibs[mibname]", "                processed[mibname] = statusFailed.setOptions(error=exc)\n\n                del parsedMibs[mibname]"),
+    ('codegen-failure-not-in-failed-map-c09', 'C09', C, "                processed[mibname] = statusFailed.setOptions(error=exc)\n\n                failedMibs[mibname] = exc\n                del parsedMibs[mibname]", "                processed[mibname] = statusFailed.setOptions(error=exc)\n\n                del parsedMibs[mibname]"),
+    ('writeMibs-negated', 'C13', C, "if options.get('writeMibs', True):", "if not options.get('writeMibs', True):"),
+    ('writeMibs-negated-c09', 'C09', C, "if options.get('writeMibs', True):", "if not options.get('writeMibs', True):"),
+    ('index-args-swapped', 'C18', C, "                self.indexFile,\n                self._codegen.genIndex(\n                    processedMibs,\n                    comments=comments,\n                    old_index_data=self._writer.getData(self.indexFile)\n                ),", "                self._codegen.genIndex(\n                    processedMibs,\n                    comments=comments,\n                    old_index_data=self._writer.getData(self.indexFile)\n                ),\n                self.indexFile,"),
+    ('index-ignoreErrors-negated', 'C18', C, "            if options.get('ignoreErrors'):\n                return\n\n            if hasattr(exc, 'with_traceback'):", "            if not options.get('ignoreErrors'):\n                return\n\n            if hasattr(exc, 'with_traceback'):"),
 ]
 
 
